@@ -447,6 +447,7 @@ func init() {
 		BudgetIsViolation: true,
 		QuickRuns:         8000,
 		ThoroughRuns:      300000,
+		RaceCompanion:     "C01R",
 		Rule: "the real SMTP server (Start -> serve -> Accept -> startSession -> StoreManager.Deliver -> real mem/file store) on the simulated " +
 			"network; 1-3 concurrent reply-driven clients play up to 12 transactions in total from a grammar (HELO/EHLO/no greeting, valid / " +
 			"malformed / origin-rejected senders, 0-4 recipients: valid, malformed, duplicate, +tag aliases, rejected and discard domains, " +
@@ -461,5 +462,30 @@ func init() {
 			"addresses are drawn from the class where mailbox naming is undisputed (lower-case domains, non-empty base name); the disputed class is C04's subject",
 			"cap, size limit and retention are off (they are C08/C12's subject)",
 		},
+	})
+}
+
+func init() {
+	register(&Prop{
+		ID:    "C01R",
+		Level: "exploration",
+		Gen: func(w *simrt.Choices, tier string, avoid map[string]bool) Case {
+			k := genC01(w, tier, avoid).(*c01Case)
+			k.Fault = fsFault{}
+			return k
+		},
+		Run: runC01,
+		Config: func(cs Case) simrt.Config {
+			return simrt.Config{NoJumps: true, MaxSteps: 400000, MaxSimTime: 6 * time.Hour}
+		},
+		RaceMode:     true,
+		QuickRuns:    1200,
+		ThoroughRuns: 30000,
+		Rule: "race-mode companion of C01: the same concurrent SMTP clients, policies, naming modes and back-ends (no disk faults) in a -race binary. Code without a scheduling " +
+			"point runs atomically in the simulation, so state shared between sessions without any lock (a package-level scratch buffer in address parsing, " +
+			"wildcard matching, hashing ...) never misbehaves there; ThreadSanitizer sees it by happens-before: the simulator's hand-off is hidden from it, " +
+			"Inbucket's own synchronisation is published, and a report counts when, for both accesses, the innermost frame belonging to this module is Inbucket code",
+		Real: []string{"pkg/server/smtp", "pkg/message", "pkg/policy", "pkg/stringutil", "pkg/extension", "pkg/storage/mem", "pkg/storage/file"},
+		Stub: []string{"TCP (simnet)", "scheduler", "sync (edges published to ThreadSanitizer)", "disk (simfs; reports about its own bookkeeping are ignored)", "clock"},
 	})
 }
